@@ -4,8 +4,11 @@
 //! the `PollRead` / `PollWrite` adversary × tokio runtime flavour × BGZF worker count × H1 delay plan):
 //!   RD  reader: async transcript (c16::rd, element-for-element mirror of `corpus::transcript_read`, plus the
 //!       Stream-returning APIs `records()` / `record_bufs()` / `lines()`) == sync transcript of the same bytes; valid
-//!       corpus items, two local witness items, re-blocked BGZF layouts, truncated and one-bit-corrupt inputs (error kind
-//!       and position in the transcript are part of the comparison; message texts are not).
+//!       corpus items, local witness items (one BGZF member per line; rich -> minimal -> rich record adjacency read through
+//!       ONE reader with reused buffers), re-blocked BGZF layouts, truncated and one-bit-corrupt inputs. Judged: every
+//!       difference on an input the sync reader reads to END, and on inputs it rejects a difference in what is yielded
+//!       before the error as far as both sides get; kind / position of the final error on sync-rejected inputs is only
+//!       measured (`observed_not_judged[...]`). Virtual positions are compared by the uncompressed offset they denote.
 //!   SK  BGZF operation histories with `seek` / `seek_by_uncompressed_position` on both readers (every operation is
 //!       compared; after a difference the state counts as tainted until the next seek).
 //!   QY  region queries (BAM+BAI, SAM.gz+CSI, BCF+CSI, VCF.gz+tabix, csi::IndexedReader, CRAM+CRAI): one reader, a
@@ -293,7 +296,134 @@ fn local_items() -> Vec<Item> {
     vec![
         Item { kind: Kind::SamGz, name: "samgz/c16-one-member-per-line-records-without-data".into(), bytes: member_per_line(sam), side: corpus::Side::default() },
         Item { kind: Kind::VcfGz, name: "vcfgz/c16-one-member-per-line-records-without-samples".into(), bytes: member_per_line(vcf), side: corpus::Side::default() },
+        // a carriage return that is not followed by a line feed: the sync reader accepts the file and keeps it in the sequence
+        Item {
+            kind: Kind::Fasta,
+            name: "fasta/c16-lone-carriage-return-in-sequence".into(),
+            bytes: b">s0 lone carriage returns\r\nACGTAC\rGTACGT\r\nAC\rGT\rA\r\n>s1\nTT\rT\nGG\n".to_vec(),
+            side: corpus::Side::default(),
+        },
     ]
+}
+
+/// Reused-state witnesses: files in which rich and minimal records alternate (rich -> minimal -> rich), so that ONE
+/// reader with ONE reused record / line buffer (every driver here reuses its buffers through the whole file, through
+/// read_record(&mut same), read_record_buf(&mut same), records() / record_bufs() / lines()) meets a short record right
+/// after a long one and vice versa; the same items drive ONE async writer with its reused encode buffer. Derived from the
+/// corpus models by stripping every optional field of every third record, written with the sync writers.
+fn adjacency_items(items: &[Item]) -> Vec<Item> {
+    let mut out = Vec::new();
+    let strip_sam = |text: &[u8]| -> Vec<u8> {
+        let mut v = Vec::new();
+        let mut i = 0;
+        for line in String::from_utf8_lossy(text).split_inclusive('\n') {
+            if line.starts_with('@') {
+                v.extend_from_slice(line.as_bytes());
+                continue;
+            }
+            let f: Vec<&str> = line.trim_end_matches('\n').split('\t').collect();
+            if i % 3 == 1 && f.len() >= 11 {
+                // minimal: no CIGAR, no bases, no qualities, no optional fields
+                let m = [f[0], f[1], f[2], f[3], f[4], "*", f[6], f[7], f[8], "*", "*"];
+                v.extend_from_slice(m.join("\t").as_bytes());
+                v.push(b'\n');
+            } else {
+                v.extend_from_slice(line.as_bytes());
+            }
+            i += 1;
+        }
+        v
+    };
+    let strip_vcf = |text: &[u8]| -> Vec<u8> {
+        let mut v = Vec::new();
+        let mut i = 0;
+        for line in String::from_utf8_lossy(text).split_inclusive('\n') {
+            if line.starts_with('#') {
+                v.extend_from_slice(line.as_bytes());
+                continue;
+            }
+            let mut f: Vec<String> = line.trim_end_matches('\n').split('\t').map(|x| x.to_string()).collect();
+            if i % 3 == 1 && f.len() >= 8 {
+                // minimal: no ID, no QUAL, no FILTER, no INFO (sample columns stay: their number is fixed by the header)
+                for k in [2, 5, 6, 7] {
+                    f[k] = ".".into();
+                }
+                v.extend_from_slice(f.join("\t").as_bytes());
+                v.push(b'\n');
+            } else {
+                v.extend_from_slice(line.as_bytes());
+            }
+            i += 1;
+        }
+        v
+    };
+    let mut written = |kind: Kind, name: String, model: Vec<u8>, flush_every: usize| {
+        let mut item = Item { kind, name, bytes: Vec::new(), side: corpus::Side { model: Some(model), writable: true, flush_every, ..corpus::Side::default() } };
+        let mut bytes = Vec::new();
+        if let Ok(Ok(())) = guard::catch(|| corpus::write_history(&item, &mut bytes)) {
+            item.bytes = bytes;
+            out.push(item);
+        }
+    };
+    for it in items {
+        let Some(model) = &it.side.model else { continue };
+        match (it.kind, it.name.as_str()) {
+            (Kind::Sam, n) if n.ends_with("small-3refs-14recs") || n.ends_with("multiblock-3refs-64recs") => {
+                let tail = n.rsplit('/').next().unwrap_or("x");
+                let m = strip_sam(model);
+                for kind in [Kind::Sam, Kind::SamGz, Kind::Bam, Kind::BamRaw] {
+                    written(kind, format!("{}/c16-adjacency-rich-minimal-rich-{tail}", kind.name()), m.clone(), if matches!(kind, Kind::SamGz | Kind::Bam) { 5 } else { 0 });
+                }
+            }
+            (Kind::Vcf, n) if n.ends_with("small-2contigs-12recs-2samples") || n.ends_with("nosamples-3contigs-25recs") => {
+                let tail = n.rsplit('/').next().unwrap_or("x");
+                let m = strip_vcf(model);
+                for kind in [Kind::Vcf, Kind::VcfGz, Kind::Bcf, Kind::BcfRaw] {
+                    written(kind, format!("{}/c16-adjacency-rich-minimal-rich-{tail}", kind.name()), m.clone(), if matches!(kind, Kind::VcfGz | Kind::Bcf) { 5 } else { 0 });
+                }
+            }
+            _ => {}
+        }
+    }
+    // text formats: hand-written (seed independent)
+    let long = |n: usize, alphabet: &[u8]| -> String { (0..n).map(|i| alphabet[(i * 7 + i / 3) % alphabet.len()] as char).collect() };
+    let mut fq = String::new();
+    let mut fa = String::new();
+    let mut gff = String::from("##gff-version 3\n");
+    for i in 0..9 {
+        if i % 3 == 1 {
+            fq.push_str(&format!("@m{i}\nA\n+\nI\n"));
+            fa.push_str(&format!(">m{i}\nA\n"));
+            gff.push_str(&format!("sq0\t.\tregion\t{}\t{}\t.\t.\t.\t.\n", 5 + i, 6 + i));
+        } else {
+            let n = 150 + 37 * i;
+            fq.push_str(&format!("@r{i} a fairly long description {i} with several words\n{}\n+\n{}\n", long(n, b"ACGTN"), long(n, b"IIHG?@#5")));
+            fa.push_str(&format!(">r{i} a fairly long description {i}\n"));
+            for chunk in long(n, b"ACGTNacgt").as_bytes().chunks(60) {
+                fa.push_str(std::str::from_utf8(chunk).unwrap());
+                fa.push('\n');
+            }
+            gff.push_str(&format!(
+                "sq0\tsource{i}\tgene\t{}\t{}\t0.{i}5\t+\t0\tID=gene{i};Name=a long name {i};Dbxref=db:{i},db:{},db:x%2Cy;Note=rich%3Brecord\n",
+                100 * i + 1,
+                100 * i + 90,
+                i + 1
+            ));
+        }
+    }
+    let plain = |kind: Kind, name: &str, text: String| {
+        let mut item = Item { kind, name: name.into(), bytes: text.into_bytes(), side: corpus::Side::default() };
+        // writable if the sync writer reproduces the bytes (then the async writer is driven with the same records)
+        item.side.writable = true;
+        let mut bytes = Vec::new();
+        let same = matches!(guard::catch(|| corpus::write_history(&item, &mut bytes)), Ok(Ok(()))) && bytes == item.bytes;
+        item.side.writable = same;
+        item
+    };
+    out.push(plain(Kind::Fastq, "fastq/c16-adjacency-rich-minimal-rich", fq));
+    out.push(plain(Kind::Fasta, "fasta/c16-adjacency-rich-minimal-rich", fa));
+    out.push(plain(Kind::Gff, "gff/c16-adjacency-rich-minimal-rich", gff));
+    out
 }
 
 fn salt_of(name: &str, extra: u64) -> u64 {
@@ -309,6 +439,8 @@ fn gen_world(ctx: &Ctx) -> World {
     let mut items = corpus::items(ctx.seed, scale);
     if !tiny {
         items.extend(local_items());
+        let adj = adjacency_items(&items);
+        items.extend(adj);
     }
     let mut cases = Vec::new();
     let item_filter = ctx.param("item").map(|s| s.to_string());
@@ -618,14 +750,30 @@ fn cut_class(bytes: &[u8]) -> &'static str {
     }
 }
 
-/// Uncompressed data offset a virtual position denotes (None if it does not name a member start / a byte in a member).
-fn data_offset(walk: &obgzf::Walk, file_len: usize, v: u64) -> Option<u64> {
+/// Uncompressed data offset a virtual position denotes: `(offset of member i, u)` with `u <= len(member i)` denotes
+/// `start(i) + u`; `(end of the walkable members, 0)` and `(file length, 0)` denote the end of the data. (End of member i,
+/// start of member i+1 and — across empty members — start of the next non-empty member all denote the same byte.)
+/// None if the position does not denote a byte boundary at all.
+fn data_offset(walk: &obgzf::Walk, walked_end: usize, file_len: usize, v: u64) -> Option<u64> {
     let (c, u) = (v >> 16, v & 0xffff);
-    if c == file_len as u64 && u == 0 {
+    if (c == file_len as u64 || c == walked_end as u64) && u == 0 {
         return Some(walk.total);
     }
     let i = walk.members.iter().position(|m| m.offset == c)?;
     if u as usize <= walk.members[i].data.len() { Some(walk.starts[i] + u) } else { None }
+}
+
+/// Replaces every `V:<raw virtual position>` element by `V@<denoted uncompressed offset>` (or `V?<raw>` when the value
+/// denotes no byte boundary, which then has to agree raw).
+fn normalise_positions(t: &mut [String], walk: &obgzf::Walk, walked_end: usize, file_len: usize) {
+    for s in t.iter_mut() {
+        if let Some(raw) = s.strip_prefix("V:").and_then(|x| x.parse::<u64>().ok()) {
+            *s = match data_offset(walk, walked_end, file_len, raw) {
+                Some(o) => format!("V@{o}"),
+                None => format!("V?{}:{}", raw >> 16, raw & 0xffff),
+            };
+        }
+    }
 }
 
 fn short(s: &str) -> String {
@@ -674,6 +822,13 @@ fn run_rd(w: &World, o: &mut CaseOut, item: &Item, variant: Variant, reseal: usi
         o.count(&format!("inputs_with_sync_error[{module}]"), 1);
     }
     let frames = if rd::uses_bgzf(kind) { frames_of(&bytes) } else { Vec::new() };
+    // virtual positions are compared by the byte they denote (independent walker), not by their raw value
+    let walked = if kind.is_bgzf_wrapped() { obgzf::walk_prefix(&bytes).ok() } else { None };
+    let mut expected = expected;
+    if let Some((walk, end)) = &walked {
+        normalise_positions(&mut expected, walk, *end, bytes.len());
+    }
+    let sync_rejects = expected.last().map(|s| s.starts_with("ERR:")).unwrap_or(false);
     let data = Arc::new(bytes);
     let api = if stream { "stream-" } else { "" };
     let sig_prefix = format!("{module}:reader:{api}{}:{}", variant_name(variant), malform.class());
@@ -694,11 +849,28 @@ fn run_rd(w: &World, o: &mut CaseOut, item: &Item, variant: Variant, reseal: usi
         match res {
             Err(e) => run_err(o, &sig_prefix, &format!("{} ({:?})", item.name, malform), cfg, e),
             Ok(got_raw) => {
-                let got = strip_all(got_raw.clone());
+                let mut got = strip_all(got_raw.clone());
+                if let Some((walk, end)) = &walked {
+                    normalise_positions(&mut got, walk, *end, data.len());
+                }
                 if let Some((i, class)) = diff_class(&expected, &got) {
-                    let mut sig = rd_signature(kind, variant, malform, &data, &expected, &got, i, &class, sync_msg.as_deref());
-                    if stream && !sig.starts_with("bgzf-layer:") && !sig.contains(":reader:lazy:") {
+                    let mut sig = rd_signature(kind, variant, malform, &data, &expected, &got, i, &class);
+                    if stream && !sig.starts_with("bgzf-layer:") {
                         sig = sig.replacen(":reader:", ":reader:stream-", 1);
+                    }
+                    // The quantifier ranges over inputs the sync path ACCEPTS. On an input the sync reader rejects, what is
+                    // yielded BEFORE the error still has to agree as far as both sides get (a content difference is a
+                    // difference in what is yielded); the kind of the final error and where it surfaces (one side stopping
+                    // earlier / going on longer / not failing) are measured, not judged.
+                    if sync_rejects {
+                        let (eb, _) = terminator(&expected);
+                        let (gb, _) = terminator(&got);
+                        let n = eb.len().min(gb.len());
+                        if eb[..n] == gb[..n] {
+                            o.count(&format!("observed_not_judged[{sig}]"), 1);
+                            o.count("reader_pairs_sync_rejects_input_prefix_agrees", 1);
+                            continue;
+                        }
                     }
                     o.violation_with(
                         sig,
@@ -715,7 +887,7 @@ fn run_rd(w: &World, o: &mut CaseOut, item: &Item, variant: Variant, reseal: usi
                             got_raw.get(i + 1..(i + 3).min(got_raw.len())).map(|v| v.iter().map(|s| short(s)).collect::<Vec<_>>()),
                             cfg_json(cfg)
                         ),
-                        json!({"sync_error_message": sync_msg}),
+                        json!({"sync_error_message": sync_msg, "note": "V@n = uncompressed offset denoted by a virtual position"}),
                     );
                 } else {
                     o.count("reader_pairs_equal", 1);
@@ -725,63 +897,15 @@ fn run_rd(w: &World, o: &mut CaseOut, item: &Item, variant: Variant, reseal: usi
     }
 }
 
-/// Violation signature of a reader difference: `<kind>:reader:<variant>:<input class>:<difference class>`, with two
-/// refinements that name a root cause instead of its kind-specific symptoms:
-/// * BGZF-wrapped inputs cut inside a member: the BGZF layers themselves disagree (sync: a partial 18-byte member header
-///   is a clean end of input and a partial body is UnexpectedEof; async: the partial frame is handed to the block parser),
-///   whatever format sits on top => `bgzf-layer:reader:<cut class>:…`;
-/// * virtual positions that differ but denote the same uncompressed offset (other member boundary representation).
+/// Signature of a reader difference: `<kind>:reader:<variant>:<input class>:<difference class>`. BGZF-wrapped truncated
+/// inputs carry where they were cut (member boundary / header / body); one root cause is named: FASTA / FASTQ elements
+/// that differ only in carriage returns.
 #[allow(clippy::too_many_arguments)]
-fn rd_signature(kind: Kind, variant: Variant, malform: &Malform, bytes: &[u8], expected: &[String], got: &[String], i: usize, class: &str, sync_msg: Option<&str>) -> String {
+fn rd_signature(kind: Kind, variant: Variant, malform: &Malform, bytes: &[u8], expected: &[String], got: &[String], i: usize, class: &str) -> String {
     let mut input = malform.class();
     if kind.is_bgzf_wrapped() {
         if let Malform::Truncate(_) = malform {
             input = cut_class(bytes);
-            let (eb, et) = terminator(expected);
-            let (gb, gt) = terminator(got);
-            let prefix_related = eb == gb || (gb.len() < eb.len() && eb[..gb.len()] == *gb) || (eb.len() < gb.len() && gb[..eb.len()] == *eb);
-            // (the sync side then either ends cleanly or fails later / differently in the format layer on the short data)
-            if input == "truncated-in-member-header" && gt == "ERR:UnexpectedEof" && et != gt && gb.len() <= eb.len() && prefix_related {
-                return "bgzf-layer:reader:truncated-in-member-header:async-UnexpectedEof-where-sync-ends-cleanly".into();
-            }
-            if input == "truncated-in-member-body" && et == "ERR:UnexpectedEof" && gt == "ERR:InvalidData" && prefix_related {
-                return "bgzf-layer:reader:truncated-in-member-body:error-kind:UnexpectedEof->InvalidData".into();
-            }
-        }
-        if class.starts_with("diverges-at-virtual-position") {
-            if let (Some(e), Some(g), Ok((walk, _))) = (expected.get(i), got.get(i), obgzf::walk_prefix(bytes)) {
-                let p = |s: &str| s.strip_prefix("V:").and_then(|x| x.parse::<u64>().ok());
-                if let (Some(ve), Some(vg)) = (p(e), p(g)) {
-                    let (oe, og) = (data_offset(&walk, bytes.len(), ve), data_offset(&walk, bytes.len(), vg));
-                    // the rest of the transcript must agree once V: elements are set aside
-                    let no_v = |t: &[String]| t.iter().filter(|s| !s.starts_with("V:")).cloned().collect::<Vec<_>>();
-                    if oe.is_some() && oe == og && no_v(expected) == no_v(got) {
-                        if matches!(kind, Kind::SamGz | Kind::VcfGz) && variant == Variant::Primary {
-                            return format!("{}:reader:lazy:sync-reader-peeks-past-the-line-feed:virtual-position-other-member-boundary-same-data-offset", kind.name());
-                        }
-                        return format!("{}:reader:{}:{}:virtual-position-other-member-boundary-same-data-offset", kind.name(), variant_name(variant), input);
-                    }
-                }
-            }
-        }
-    }
-    if matches!(kind, Kind::SamGz | Kind::VcfGz) && variant == Variant::Primary && class == "async-goes-on" {
-        // [peek] the sync lazy SAM / VCF record readers call fill_buf once more after the line feed of a record that ends
-        // with its last mandatory field: a bad next block fails the call that reads the record BEFORE it; the async lazy
-        // readers deliver that record and fail on the next call (same error)
-        let (eb, _) = terminator(expected);
-        let (gb, _) = terminator(got);
-        let extra = &gb[eb.len()..];
-        if extra.len() <= 2 && extra.iter().filter(|s| s.starts_with("R:")).count() == 1 && extra.iter().all(|s| s.starts_with("R:") || s.starts_with("V:")) {
-            return format!("{}:reader:lazy:sync-reader-peeks-past-the-line-feed:error-surfaces-one-record-earlier-in-sync", kind.name());
-        }
-    }
-    if matches!(kind, Kind::Cram | Kind::Crai) && *malform != Malform::None && class.starts_with("same-elements:ERR:") && class.contains("->ERR:") {
-        // gzip streams (CRAI file, CRAM file header block) are inflated by flate2 on the sync side and by
-        // async-compression on the async side; the two map a damaged stream to different io::ErrorKinds
-        let m = sync_msg.unwrap_or("");
-        if m.contains("deflate") || m.contains("gzip") || m == "unexpected end of file" {
-            return format!("{}:reader:{}:{}:gzip-layer-error-kind-differs", kind.name(), variant_name(variant), input);
         }
     }
     if matches!(kind, Kind::Fasta | Kind::Fastq) && class.starts_with("diverges-at-record") {
@@ -817,6 +941,14 @@ fn run_sk(o: &mut CaseOut, item: &Item, reseal: usize, hseed: u64, cfgs: &[Cfg],
         }
     };
     let frames = frames_of(&bytes);
+    // positions (after every operation, and the one a seek returns) are compared by the byte they denote
+    let file_len = bytes.len();
+    let denote = |obs: &[sk::Obs]| -> Vec<sk::Obs> {
+        let d = |v: u64| data_offset(&walk, file_len, file_len, v).unwrap_or(v | 1 << 63);
+        obs.iter().map(|x| if x.result == "ok" { sk::Obs { vpos: d(x.vpos), ret: x.ret.map(d), ..x.clone() } } else { x.clone() }).collect()
+    };
+    let expected_raw = expected;
+    let expected = denote(&expected_raw);
     let data = Arc::new(bytes);
     for cfg in cfgs {
         pair_counters(o, module, "seek", cfg, Some(cfg.workers));
@@ -832,7 +964,8 @@ fn run_sk(o: &mut CaseOut, item: &Item, reseal: usize, hseed: u64, cfgs: &[Cfg],
         o.fps.push(cfg_fp(module, &format!("sk|{}", reseal > 0), cfg));
         match res {
             Err(e) => run_err(o, "bgzf:seek", &item.name, cfg, e),
-            Ok(got) => {
+            Ok(got_raw) => {
+                let got = denote(&got_raw);
                 // every operation is compared; after an operation that differs, the reader state is tainted until the next
                 // seek re-establishes it (consequences of one difference are not reported as further differences)
                 let mut tainted = false;
@@ -868,17 +1001,17 @@ fn run_sk(o: &mut CaseOut, item: &Item, reseal: usize, hseed: u64, cfgs: &[Cfg],
                     o.violation(
                         sig,
                         format!(
-                            "{} (reseal {}): operation #{i} {:?}: sync reader observed {:?}, async reader {:?}; history: {:?} [{}]",
+                            "{} (reseal {}): operation #{i} {:?}: sync reader observed {:?}, async reader {:?} (raw positions; compared by the uncompressed offset they denote); history: {:?} [{}]",
                             item.name,
                             reseal,
                             ops.get(i),
-                            expected.get(i),
-                            got.get(i),
+                            expected_raw.get(i),
+                            got_raw.get(i),
                             &ops[i.saturating_sub(6)..=i.min(ops.len() - 1)],
                             cfg_json(cfg)
                         ),
                     );
-                    if expected.get(i).map(|e| e.1.starts_with("err")).unwrap_or(true) || got.get(i).map(|g| g.1.starts_with("err")).unwrap_or(true) {
+                    if expected.get(i).map(|e| e.result.starts_with("err")).unwrap_or(true) || got.get(i).map(|g| g.result.starts_with("err")).unwrap_or(true) {
                         break; // one side stopped here
                     }
                 }
@@ -1265,9 +1398,10 @@ fn main() {
          plus every distinct completion order with at least one inversion",
     );
     rep.assumptions.push("record values are compared through noodles' own text writers + typed aux values + a hash of Debug of the header (corpus::render), not through raw buffers".into());
-    rep.assumptions.push("error MESSAGES are not compared, error kinds and their position in the transcript are".into());
+    rep.assumptions.push("error MESSAGES are never compared".into());
     rep.assumptions.push("completion order is observed at the H1 sites inside the spawn_blocking closures; sampled orders, not every permutation".into());
-    rep.assumptions.push("differences on inputs the sync path REJECTS (error kind / position) are reported although the literal quantifier names inputs the sync path accepts: the statement names errors; they carry the input class truncated* / corrupt in their signature".into());
+    rep.assumptions.push("quantifier = inputs the sync path accepts: on inputs the sync reader rejects only the elements yielded before the error (common prefix) are judged; kind and position of the final error there are counted as observed_not_judged[...]".into());
+    rep.assumptions.push("virtual positions (after every element / operation, and the value a seek returns) are compared by the uncompressed offset they denote according to the independent BGZF walker; a value that denotes no byte boundary has to agree raw".into());
     rep.assumptions.push("tiny-chunk poll scripts on large inputs are scaled so that one pair needs at most ~400k transfers".into());
     rep.assumptions.push("async CRAM writer is compared with the sync writer at the production layout (no layout override exists on the async side); CRAM / CRAI / BGZF outputs are compared by what they decode to".into());
     let w = world(&ctx);
